@@ -278,9 +278,18 @@ class Run:
                         self.eng.cmd("!joincompact"); self.eng.cmd("!sleep 40")
                         self.drain_trace()
                     elif op[0] == "BGQ":
+                        # what the background read must return at least: every event of the type applied so far
+                        self.bgq = {"u": op[1], "must": sorted(k for (k, u, _c) in self.acked if u == op[1])}
                         self.eng.cmd(f"!bg QUERY {tname(op[1])} RETURN [k]")
                     elif op[0] == "JOIN":
-                        self.eng.cmd("!join")
+                        r = self.eng.cmd("!join")
+                        q = getattr(self, "bgq", None)
+                        if q is not None:
+                            pr = engine.parse_stream(r)
+                            q["status"] = pr.get("status")
+                            q["rows"] = [int(x["k"]) for x in pr.get("rows", []) if x.get("k") is not None]
+                            self.bgreads = getattr(self, "bgreads", []) + [q]
+                            self.bgq = None
                     elif op[0] == "OP":
                         # observation while something is parked (COUNT is schedule dependent then)
                         self.drain_trace()
@@ -361,7 +370,8 @@ class Run:
     def result(self):
         cap = int(self.cfg.get("fill_factor", 2)) * int(self.cfg.get("event_per_zone", 2))
         line = f"shard_run {cap} {self.ntypes} {self.nctx} " + " ".join(self.tokens)
-        return {"line": line, "obs": self.obs, "notes": self.notes, "crashed": self.crashed}
+        return {"line": line, "obs": self.obs, "notes": self.notes, "crashed": self.crashed,
+                "bgreads": getattr(self, "bgreads", [])}
 
 
 def run_history(case):
